@@ -50,6 +50,7 @@ class Schedule:
         self.completion_orders: List[List[int]] = []
         self.fired: Dict[str, int] = collections.Counter()
         self.pools_created = 0
+        self.in_worker = 0       # > 0 while a simulated worker is executing calls
         self.workers_seen: List[int] = []
 
     def next_batch(self) -> Dict[str, Any]:
@@ -420,6 +421,7 @@ class SimPool:
             def counted(*args: Any, **kwargs: Any) -> Any:
                 calls[0] += 1
                 return func(*args, **kwargs)
+            self.sched.in_worker += 1
             try:
                 if mode == "apply":
                     value = _apply(counted, chunk)
@@ -437,6 +439,8 @@ class SimPool:
             except Exception as err:  # pylint: disable=broad-except
                 outcome = (False, err)
                 self.sched.fired["task_raised"] += 1
+            finally:
+                self.sched.in_worker -= 1
             executed = calls[0]
             duration = sum(self._duration(start_position + offset) for offset in range(max(executed, 1)))
             covered = range(start_position, start_position + count)
